@@ -45,7 +45,7 @@ func c15FindChecker(enq *core.FuncInfo, batch *types.Var) c15Checker {
 				return true
 			}
 			it := c10Iter(l, n.(ast.Stmt))
-			if it == nil || it.Coll == nil || varOf(l, it.Coll) != batch {
+			if it == nil || it.Coll == nil || varOf(l, c15Resolve(l, it.Coll)) != batch {
 				return true
 			}
 			if c10Forward(it) {
@@ -376,6 +376,8 @@ func c15Order(c *core.Ctx) {
 		p := c.P
 		enq := c15View(c.Fn(c15Proc + ".Enqueue"))
 		procName := c15Proc + ".process"
+		sig, sigOK := c15SigOf(c15View(c.Fn(procName)))
+		c.Need(sigOK, "process receives the checked event and the check's error (two parameters, or one check result record)")
 		// the mode flag: Enqueue's boolean parameter
 		var ordered *types.Var
 		nBool := 0
@@ -414,23 +416,20 @@ func c15Order(c *core.Ctx) {
 			}
 			an := &c15OrderAnalysis{f: l, isCount: func(call *ast.CallExpr) bool { return calleeName(l, call) == procName }}
 			an.run()
-			isOrdered := c15BoolFact(true, func(e ast.Expr) bool { return varOf(l, e) == ordered })
+			isOrdered := c15BoolFact(true, func(e ast.Expr) bool { return varOf(l, c15Resolve(l, e)) == ordered })
 			var slots *types.Var // the results slice of the ordered mode
 			for _, cs := range l.CallsTo(procName) {
-				if g, _ := l.GuardedBy(cs.Pt, isOrdered); !g || len(cs.Call.Args) != 3 {
-					if !g {
-						nOther++
-					}
+				if g, _ := l.GuardedBy(cs.Pt, isOrdered); !g {
+					nOther++
 					continue
 				}
 				nOrdered++
 				st := an.at[cs.Call]
-				root, path := fieldPath(l, cs.Call.Args[1])
-				if st == nil || len(path) != 1 || path[0] != c15Pkg+".checkRes.e" {
-					c.Undecided("ordered mode hands on the next position of the batch", "T20 CounterInvariant", cs.Pos(), "cannot tell which check result the ordered branch hands to process() ("+exprStr(cs.Call.Args[1])+")")
+				root := sig.handed(l, cs.Call)
+				if st == nil || root == nil {
+					c.Undecided("ordered mode hands on the next position of the batch", "T20 CounterInvariant", cs.Pos(), "cannot tell which check result the ordered branch hands to process() ("+exprStr(cs.Call)+")")
 					continue
 				}
-				root = ast.Unparen(root)
 				if ix, ok := root.(*ast.IndexExpr); ok {
 					if v := varOf(l, ix.X); v != nil {
 						if slots == nil {
